@@ -121,6 +121,26 @@ pub fn run(ctx: &Ctx) -> Report {
             rep.violate("property", classify(&cmds), format!("[{mode}] command/probe #{k}: plain engine `{}`, encoded `{}`", p.trim(), o.trim()), json!({"program": hdr.to_string() + &cmds.join("\n")}));
         }
     }
+    // directed stream: constructors of every argument shape (eq-sort / base columns in any position), a row subsumed by
+    // the action or by a :subsume rewrite, then a union that makes one of its children a non-leader (both creation
+    // orders), observed by a rule over the constructor, table sizes and extraction
+    for shape in [vec!["E"], vec!["E", "i64"], vec!["i64", "E"], vec!["E", "E"], vec!["E", "i64", "E"], vec!["i64"]] {
+        for first in ["(A)", "(B)"] { for by_rewrite in [false, true] {
+            let second = if first == "(A)" { "(B)" } else { "(A)" };
+            let args = |e: &str| shape.iter().map(|k| if *k == "E" { e.to_string() } else { "1".to_string() }).collect::<Vec<_>>().join(" ");
+            let pat = shape.iter().enumerate().map(|(i, k)| if *k == "E" { format!("x{i}") } else { "1".to_string() }).collect::<Vec<_>>().join(" ");
+            let hdr = format!("(sort E)\n(constructor A () E)\n(constructor B () E)\n(constructor Q (E) E)\n(constructor P ({}) E)\n(relation seen (E))\n(ruleset r)\n(ruleset s)\n(rule ((= e (P {pat}))) ((seen e)) :ruleset r)\n(rewrite (Q x) (P {}) :ruleset s)\n(rewrite (P {pat}) (Q (A)) :subsume :ruleset s)\n", shape.join(" "), shape.iter().map(|k| if *k == "E" { "x" } else { "1" }).collect::<Vec<_>>().join(" "));
+            let mut cmds: Vec<String> = vec![first.to_string(), second.to_string(), format!("(P {})", args("(B)"))];
+            if by_rewrite { cmds.push("(run s 1)".into()); } else { cmds.push(format!("(subsume (P {}))", args("(B)"))); }
+            cmds.push("(union (A) (B))".into());
+            cmds.extend(["(run r 1)".to_string(), "(print-size seen)".into(), "(print-size P)".into(), format!("(extract (P {}))", args("(A)")), format!("(extract (P {}))", args("(B)"))]);
+            if !supported(&hdr, &cmds) { continue; }
+            rep.evaluations += 1; rep.note_nontrivial(&(&hdr, &cmds));
+            if let Some((mode, k, p, o)) = diverges(&hdr, &cmds, &[]) {
+                rep.violate("property", "c11-subsumed-row-revived", format!("[{mode}] constructor P ({}) — command #{k} `{}`: plain engine `{}`, encoded `{}`", shape.join(" "), cmds.get(k).cloned().unwrap_or_default(), p.trim(), o.trim()), json!({"program": hdr.clone() + &cmds.join("\n")}));
+            }
+        } }
+    }
     let n = ctx.n(60, 1200);
     let mut unsupported = 0u64;
     for pi in 0..n {
